@@ -250,7 +250,7 @@ ADDED = {
 }
 ROBUST = (" The rules read a canonical form of the syntax trees (comparison orientation, if/else polarity, else-after-return, keyword/positional "
           "arguments, range(0, n), method values) and statement-level inlined helpers, so behaviour-preserving rewrites do not change the verdict "
-          "(120 sub-agent refactorings, corrected twins of the seeded vectorisations and 17 kinds of whole-tree probes are replayed by the thorough tier).")
+          "(168 sub-agent refactorings, corrected twins of the seeded vectorisations and 18 kinds of whole-tree probes are replayed by the thorough tier).")
 
 
 def main():
